@@ -291,7 +291,16 @@ func c14Prop(c *sim.Case) {
 // denies. What an earlier filter of a chain put on its OK must not reach the browser when a later filter denies, and
 // an OK adds exactly what the filter that judged it is configured to add.
 func c14Chains(c *sim.Case) {
-	order := sim.Pick(c, "order", 16) // sharding draw
+	order := sim.Pick(c, "order", 32) // sharding draw
+	// both chains under one cookie name (two routes into one application, one of which passes the access token on): the
+	// session of one is then presented to the other as a matter of course
+	samePrefix := (order/16)%2 == 1
+	pfxOf := func(n string) string {
+		if samePrefix {
+			return "s"
+		}
+		return n
+	}
 	store := []string{"memory", "redis"}[order%2]
 	trailingDeny := (order/2)%2 == 1
 	bFirst := (order/4)%2 == 1
@@ -308,7 +317,7 @@ func c14Chains(c *sim.Case) {
 			AuthorizationUri: idp.AuthURL(), TokenUri: idp.TokenURL(), CallbackUri: "https://app.test/cb-" + name,
 			JwksConfig: &oidcv1.OIDCConfig_Jwks{Jwks: sim.JWKS(idp.Keys)}, ClientId: "client-shared",
 			ClientSecretConfig: &oidcv1.OIDCConfig_ClientSecret{ClientSecret: "ZqSECRET-shared"}, Scopes: []string{"openid"},
-			CookieNamePrefix: name, IdToken: &oidcv1.TokenConfig{Header: "authorization", Preamble: "Bearer"}, IdleSessionTimeout: idle,
+			CookieNamePrefix: pfxOf(name), IdToken: &oidcv1.TokenConfig{Header: "authorization", Preamble: "Bearer"}, IdleSessionTimeout: idle,
 		}
 		if at {
 			cfg.AccessToken = &oidcv1.TokenConfig{Header: "x-access-token"}
@@ -343,7 +352,7 @@ func c14Chains(c *sim.Case) {
 	send := func(what, tenant, path string) *sim.Resp {
 		h := map[string]string{"x-tenant": tenant}
 		var cs []string
-		for _, n := range []string{"a", "b"} {
+		for _, n := range []string{"a", "b", "s"} {
 			if v := jar[n]; v != "" {
 				cs = append(cs, "__Host-"+n+"-authservice-session-id-cookie="+v)
 			}
@@ -373,7 +382,7 @@ func c14Chains(c *sim.Case) {
 		}
 		for _, sc := range r.SetCookies() {
 			if !sc.Expired() && sc.Value != "" {
-				jar[tenant] = sc.Value
+				jar[pfxOf(tenant)] = sc.Value
 			}
 		}
 		if r.OK {
@@ -400,6 +409,21 @@ func c14Chains(c *sim.Case) {
 	seq := []string{"a", "b"}
 	if bFirst {
 		seq = []string{"b", "a"}
+	}
+	if samePrefix {
+		// one login; its cookie then goes to both chains, in both orders: whoever answers OK adds what ITS filter is
+		// configured to add, whichever filter the session was created through or served by before
+		login(seq[0])
+		for i := 0; i < 4; i++ {
+			r := send("request under the shared cookie name", seq[i%2], "/app")
+			if seq[i%2] == "b" && trailingDeny && r.OK {
+				c.Violation("chain-verdict", "chain b ends in a filter that denies, yet the request was allowed")
+			}
+		}
+		c.NonTrivial()
+		c.FP("chains", order)
+		c.Class("chains:shared-cookie-name")
+		return
 	}
 	for _, tnt := range seq {
 		login(tnt)
